@@ -26,6 +26,16 @@ CLAIMED = {
             'store rejected); commuting reducers are additionally run in both orders and compared.',
             'numpy / numpy.ma reductions are trusted; dimension lengths <=3; a 1-D function applied while another '
             'axis is empty is out of domain (numpy.apply_along_axis is undefined there)', 'DESIGN.md section 4 C03'),
+    'C04': ('A', 'model_checking',
+            'bounded-exhaustive enumeration of all compositions of each dimension into pieces and of ordered file tuples, on the real code',
+            'Every file of the small universe x every dimension x every composition of its length (<=4) into '
+            'consecutive pieces, split by the reference slicer and by the library slicer, stacked through '
+            'file.stack, legacy stack_files and on-disk pncmfopen, must reproduce the original (data, masks, '
+            'dimension lengths and unlimited flags, attributes, variable order); slicing the stacked file at each '
+            'piece extent must reproduce the piece; ordered pairs/triples of distinct files must equal '
+            'numpy.concatenate in argument order.',
+            'numpy.concatenate trusted; dimension order not compared; the disk form compares dims/data/masks only',
+            'DESIGN.md section 4 C04'),
 }
 
 PENDING_REASON = ('check not built yet in this session; planned per DESIGN.md section 4 '
